@@ -224,3 +224,14 @@ PROPS["C13"] = dict(
     rule="one case per configuration; elementary_evaluations counts compared samples; non-trivial when accounting and conversion were fully checked",
     assumptions=E2_ASSUME[:1] + ["real emulator cores (no null chips)"],
 )
+
+PROPS["C20"] = dict(
+    level="exploration", engine="enum", title="every emulator core sounds the programmed pitch and goes silent on release",
+    technique="exhaustive sweep of a finite configuration grid (8 cores x 2 chip families x 9 sample rates x run-at-PCM-rate x keys 24..108; cores x rates x chips 1..3 x event bursts x endings) with signal measurements on the rendered PCM using the statement's own thresholds",
+    level_text="Every configuration renders a pure-tone note on the real emulator core: idle level before any note, onset < 10 ms, RMS above 1 % FS while held, fundamental from interpolated zero crossings within 0.5 % (1 % below 22.05 kHz) for keys below 0.45 x rate at native rate, "
+               "and return to within 1 % FS of the idle level 150 ms after note-off / panic / reset, for single notes and after bursts of 1..50 immediate note-on/off pairs.",
+    level_note="quick tier: every third key; thorough: all keys; onset, audibility and pitch are only required at native rate (run-at-PCM-rate: silence clauses), as in the statement; the idle level is taken after the resampler's start-up samples",
+    legs=[Leg("cores", ["models/c20_cores.cpp"], "fastnd", [], [], timeout_thorough=7000)],
+    rule="one case per configuration; elementary_evaluations counts rendered samples; non-trivial when the full measurement stayed inside the thresholds",
+    assumptions=["signal thresholds are the statement's; zero-crossing estimator validated in the design probes (0.16 % at >= 22.05 kHz)", "real cores, shipped configuration (-O2 -DNDEBUG)"],
+)
